@@ -13,11 +13,14 @@ import (
 )
 
 type AuditResult struct {
-	Total    int      `json:"variants_total"`
-	Detected int      `json:"variants_detected"`
-	Stale    int      `json:"variants_stale"`
-	Missed   []string `json:"variants_missed"`
-	Names    []string `json:"variants"`
+	Total        int      `json:"variants_total"`
+	Detected     int      `json:"variants_detected"`
+	Stale        int      `json:"variants_stale"`
+	Missed       []string `json:"variants_missed"`
+	Names        []string `json:"variants"`
+	BenignTotal  int      `json:"benign_refactorings_total"`
+	BenignSilent int      `json:"benign_refactorings_silent"`
+	BenignStale  int      `json:"benign_refactorings_stale"`
 }
 
 // runAudit is the sensitivity audit of the thorough tier. It tests the checker, not /repo:
@@ -91,6 +94,39 @@ func runAudit(prop string, rules []*Rule) *AuditResult {
 				}
 			}
 			res.Missed = append(res.Missed, fmt.Sprintf("%s: none of the rules %v reports it any more", name, expect[name].Detected[prop]))
+		}()
+	}
+	wg.Wait()
+	// the other direction: behaviour-preserving refactorings (/verif/benign) must not be reported
+	bdirs, _ := filepath.Glob(filepath.Join(verifDir(), "benign", "*", "patch.diff"))
+	sort.Strings(bdirs)
+	for _, bp := range bdirs {
+		bp := bp
+		wg.Add(1)
+		sem <- struct{}{}
+		go func() {
+			defer wg.Done()
+			defer func() { <-sem }()
+			name := filepath.Base(filepath.Dir(bp))
+			cmd := exec.Command(exe, "-prop", prop, "-tier", "quick", "-repo", *flagRepo, "-verif", verifDir(), "-overlaypatch", bp, "-nocontrols")
+			out, _ := cmd.CombinedOutput()
+			mu.Lock()
+			defer mu.Unlock()
+			res.BenignTotal++
+			if strings.Contains(string(out), errStaleVariant.Error()) {
+				res.BenignStale++
+				return
+			}
+			for _, l := range strings.Split(string(out), "\n") {
+				if strings.HasPrefix(l, "VIOLATION") || strings.HasPrefix(l, "BROKEN") {
+					if len(l) > 220 {
+						l = l[:220]
+					}
+					res.Missed = append(res.Missed, fmt.Sprintf("false alarm on the behaviour-preserving refactoring %s: %s", name, l))
+					return
+				}
+			}
+			res.BenignSilent++
 		}()
 	}
 	wg.Wait()
